@@ -91,11 +91,25 @@ impl<F: Read + Write + Seek> Stream<F> {
             let new_position = self.current_position().min(size);
             self.flush_changes()?;
             let minialloc = self.minialloc()?;
-            resize_stream(
+            let result = resize_stream(
                 &mut minialloc.write().unwrap(),
                 self.stream_id,
                 size,
-            )?;
+            );
+            if let Err(err) = result {
+                // The resize may have been carried out in part (I/O error, or
+                // a damaged file).  The directory entry says how long the
+                // stream is now; keep this handle in step with it.
+                let minialloc = minialloc.read().unwrap();
+                let dir_entry = minialloc.dir_entry(self.stream_id);
+                if dir_entry.obj_type == ObjType::Stream {
+                    self.total_len = dir_entry.stream_len;
+                }
+                self.buf_offset_from_start =
+                    self.current_position().min(self.total_len);
+                self.buffer.clear();
+                return Err(err);
+            }
             self.total_len = size;
             self.buf_offset_from_start = new_position;
             self.buffer.clear();
